@@ -35,6 +35,7 @@ class Method(Variable):  # i.e. TypeBound procedure
             link_obj=link_obj,
         )
         self.drop_arg: int = -1
+        self._hover_active: bool = False
         self.pass_name: str = keyword_info.get("pass")
         if link_obj is None:
             self.link_name = get_paren_substring(self.get_desc(True).lower())
@@ -70,14 +71,22 @@ class Method(Variable):  # i.e. TypeBound procedure
 
     def get_hover(self, long=False, drop_arg=-1) -> tuple[str, str]:
         docs = self.get_documentation()
+        if self._hover_active:
+            # The linked procedure has (directly or indirectly) a dummy procedure
+            # with its own interface: do not expand it again
+            return f"{self.get_desc(True)} :: {self.name}", docs
         # Long hover message
         if self.link_obj is None:
             sub_sig, _ = self.get_snippet()
             hover_str = f"{self.get_desc()} {sub_sig}"
         else:
-            link_msg, link_docs = self.link_obj.get_hover(
-                long=True, drop_arg=self.drop_arg
-            )
+            self._hover_active = True
+            try:
+                link_msg, link_docs = self.link_obj.get_hover(
+                    long=True, drop_arg=self.drop_arg
+                )
+            finally:
+                self._hover_active = False
             # Replace the name of the linked object with the name of this object
             hover_str = link_msg.replace(self.link_obj.name, self.name, 1)
             if isinstance(link_docs, str):
